@@ -94,7 +94,8 @@ class Check:
         known, fixed = load_known()
         known = known.get(self.pid, {})
         fixed = fixed.get(self.pid, {})
-        outdir = os.path.join(VERIF, 'out', self.pid)
+        alt = os.environ.get('MCTPSA_OUT')
+        outdir = os.path.join(alt or os.path.join(VERIF, 'out'), self.pid)
         os.makedirs(outdir, exist_ok=True)
         for f in os.listdir(outdir):
             try:
@@ -169,8 +170,9 @@ class Check:
             'wall_s': round(wall, 3),
             'violations': n_viol,
         }
-        os.makedirs(os.path.join(VERIF, 'evidence'), exist_ok=True)
-        with open(os.path.join(VERIF, 'evidence', '%s.json' % self.pid), 'w') as f:
+        evdir = os.path.join(alt, 'evidence') if alt else os.path.join(VERIF, 'evidence')
+        os.makedirs(evdir, exist_ok=True)
+        with open(os.path.join(evdir, '%s.json' % self.pid), 'w') as f:
             json.dump(ev, f, indent=1, default=str)
         print('%s %s: %d obligations, %d discharged, %d known findings, %d violations (%.1fs; %d entries, %d leaves)' % (
             self.pid, self.tier, len(self.obligations), len(self.obligations) - len(failed), len(seen_known), n_viol,
